@@ -105,7 +105,7 @@ def shapes():
     return S
 
 
-def _common_ops(variants):
+def _common_ops(variants, damaged_depfile=False):
     v0 = variants[0]
     ops = []
     produced = set(o for v in variants for st in v.stmts for o in st.all_outs())
@@ -125,7 +125,7 @@ def _common_ops(variants):
             ops.append({"op": "write", "path": st.id + ".d", "content": st.id + ": " + " ".join(st.hidden) + "\n",
                         "label": "leftover depfile " + st.id + ".d"})
     for st in v0.stmts:
-        if st.depfile and not st.deps:
+        if damaged_depfile and st.depfile and not st.deps:
             # what a compiler that was killed half way left of its depfile: it does not parse, and looking is not touching
             ops.append({"op": "write", "path": st.id + ".d", "content": "cut off before the colo", "label": "damaged depfile " + st.id + ".d"})
             break
@@ -242,7 +242,7 @@ def readonly_scenarios(tier="quick"):
         if name == "two_dyndep" or name.startswith("dyndep_claims"):
             continue   # C19 is stated for graphs without pending dyndep files
         variants = variants[:1]
-        ops, build = _common_ops(variants)
+        ops, build = _common_ops(variants, damaged_depfile=True)
         v0 = variants[0]
         outs = [o for st in v0.stmts for o in st.all_outs()]
         tools = []
